@@ -93,117 +93,7 @@ func runC06(c *Ctx) {
 		}
 	}
 
-	R.Rule("R-limit-budget", "E2+E4", "Read: exhausted budget returns the 552 error before reading; the buffer is cut to the budget; every exit after reading subtracts the delivered count", 6)
-	if f := c.A.Func("(*dataReader).Read"); f != nil {
-		t := buildDotTable(c)
-		var tooLarge []ssa.Instruction
-		allInstrs(f, func(in ssa.Instruction) {
-			if r, ok := in.(*ssa.Return); ok && len(r.Results) == 2 && describe(r.Results[1]) == "ErrDataTooLarge" {
-				tooLarge = append(tooLarge, in)
-			}
-		})
-		R.Ob("(*dataReader).Read/returns ErrDataTooLarge", c.P.Pos(f.Pos()), len(tooLarge) >= 1, "no return of ErrDataTooLarge found: an exhausted budget is not reported")
-		for _, r := range tooLarge {
-			c.obUnreach("ErrDataTooLarge", r, `dataReader.limited == false`)
-			// strictness: a budget that is exhausted but not exceeded is not an error (a message of exactly N octets is accepted)
-			c.obUnreach("ErrDataTooLarge", r, `dataReader.n >= 0`)
-			res := r.(*ssa.Return).Results[0]
-			okCount := false
-			if k, isK := constInt(res); isK && k == 0 {
-				okCount = true
-			} else if bo, isB := res.(*ssa.BinOp); isB && bo.Op == token.SUB {
-				if k, isK := constInt(bo.Y); isK && k == 1 {
-					okCount = true // n-1: the octet beyond the budget is not handed out
-				}
-			}
-			R.Ob(c.siteKey(r, "ErrDataTooLarge hands out at most the budget"), c.P.InstrPos(r), okCount, "over-limit return reports "+describe(res)+" delivered octets")
-		}
-		if t.err == nil {
-			c.obUnreach("ReadByte", t.m.readCall, `dataReader.limited == true`, `dataReader.n < 0`)
-			// buffer cut: the buffer the loop writes to must be a loop-header phi
-			// (cut or uncut), not the raw parameter
-			cutSeen := false
-			allInstrs(f, func(in ssa.Instruction) {
-				if sl, ok := in.(*ssa.Slice); ok && describe(sl.X) == "param1" && sl.High != nil && describe(sl.High) == "(dataReader.n + 1)" {
-					cutSeen = true
-				}
-			})
-			R.Ob("(*dataReader).Read/buffer cut exists", c.P.Pos(f.Pos()), cutSeen, "Read never cuts the caller's buffer to the remaining budget plus the one probe octet: one call can deliver more than the limit, or an end marker exactly at the limit cannot be recognised")
-			for _, in := range t.m.header.Instrs {
-				phi, ok := in.(*ssa.Phi)
-				if !ok {
-					break
-				}
-				if isIntType(phi.Type()) || strings.Contains(phi.Type().String(), "error") {
-					continue
-				}
-				for i, e := range phi.Edges {
-					pred := t.m.header.Preds[i]
-					if t.m.header.Dominates(pred) {
-						continue
-					}
-					if describe(e) == "param1" {
-						// uncut buffer may enter only when not limited or len(b) <= n
-						fb := c.F.feasibleBlocks(f, HSet(`dataReader.limited == true`, `builtin:len(param1) > (dataReader.n + 1)`))
-						feasible := fb[pred] && !c.F.infeasible(pred, t.m.header, HSet(`dataReader.limited == true`, `builtin:len(param1) > (dataReader.n + 1)`))
-						R.Ob(fmt.Sprintf("(*dataReader).Read/uncut buffer edge from block %s", pred.Comment), c.P.InstrPos(phi), !feasible, "the caller's full buffer reaches the copy loop although it is larger than the remaining budget")
-					} else if sl, ok := e.(*ssa.Slice); ok {
-						okHigh := sl.High != nil && describe(sl.High) == "(dataReader.n + 1)" && sliceFromZero(sl) && describe(sl.X) == "param1"
-						R.Ob("(*dataReader).Read/buffer cut to budget", c.P.InstrPos(sl), okHigh, "buffer is cut to "+describe(sl))
-					}
-				}
-			}
-			// budget decrement on every exit after the loop
-			c.obFollow("budget reduced after reading", f, func(in ssa.Instruction) bool { return in == ssa.Instruction(t.m.readCall) }, []string{"st:dataReader.n"}, c.F.SkipUnder(`dataReader.limited == true`), nil)
-			for _, st := range s.Find(f, "st:dataReader.n") {
-				_, _, v := storedField(st)
-				ok := false
-				if bo, isB := v.(*ssa.BinOp); isB && bo.Op == token.SUB && describe(bo.X) == "dataReader.n" {
-					// Y must be the returned count
-					allInstrs(f, func(in ssa.Instruction) {
-						if r, isR := in.(*ssa.Return); isR && len(r.Results) == 2 && stripConv(bo.Y) == stripConv(r.Results[0]) {
-							ok = true
-						}
-					})
-				}
-				R.Ob(c.siteKey(st, "n -= delivered"), c.P.InstrPos(st), ok, "budget updated to "+describe(v))
-			}
-		}
-		// after every budget update the overflow (n < 0) is tested before the function can return
-		for _, st := range s.Find(f, "st:dataReader.n") {
-			st := st
-			v := RunPend(f, PendRule{
-				Trig: func(in ssa.Instruction) bool { return in == st },
-				Disch: func(in ssa.Instruction) bool {
-					iff, ok := in.(*ssa.If)
-					if !ok {
-						return false
-					}
-					d := describe(iff.Cond)
-					return d == "(dataReader.n < 0)" || d == "(dataReader.n >= 0)" || d == "(dataReader.n <= -1)"
-				},
-				AtExit: true,
-			})
-			R.Ob(c.siteKey(st, "overflow tested after the budget update"), c.P.InstrPos(st), len(v) == 0, "Read can return after reducing the budget without testing whether it went below zero: the probe octet beyond the limit is handed to the backend")
-		}
-		nPost := 0
-		for _, r := range tooLarge {
-			if t.err == nil && reachableFrom(t.m.header, nil)[r.Block()] {
-				nPost++
-			}
-		}
-		R.Ob("(*dataReader).Read/overflow after reading is reported", c.P.Pos(f.Pos()), nPost >= 1, "no ErrDataTooLarge return after the copy loop: the octet beyond the limit is delivered")
-		// the overflow is detected right after the budget is reduced
-		for _, r := range tooLarge {
-			if reachableFrom(f.Blocks[0], nil)[r.Block()] && t.err == nil && reachableFrom(t.m.header, nil)[r.Block()] {
-				seen := s.SeenBefore(r)
-				R.Ob(c.siteKey(r, "overflow tested after the budget was reduced"), c.P.InstrPos(r), seen["st:dataReader.n"], "over-limit return after the loop is not preceded by the budget update")
-			}
-		}
-		code, ok1 := compositeIntField(c, "ErrDataTooLarge", "Code")
-		R.Ob("ErrDataTooLarge/code 552", "-", ok1 && code == 552, fmt.Sprintf("ErrDataTooLarge.Code = %d", code))
-	}
-
+	ruleLimitBudget(c)
 	R.Rule("R-verdict-flow", "E4 value flow", "the DATA/BDAT verdict is the backend's result and nothing else: the handlers add no size verdict of their own (the limit is enforced by the reader and by the chunk accounting)", 4)
 	ruleVerdictSources(c)
 
@@ -328,4 +218,123 @@ func ruleSizeParam(c *Ctx) {
 			R.Ob(c.siteKey(st, "opts.Size = parsed SIZE"), c.P.InstrPos(st), describe(v) == sizeDesc && sizeDesc != "", "opts.Size stored from "+describe(v))
 		}
 	}
+}
+
+// ruleLimitBudget (C06, C16): the size budget of the DATA reader. C16 needs it for "the message arrives intact and
+// Close returns the server's verdict" on a server with a limit: a message of exactly the limit must reach its end marker.
+func ruleLimitBudget(c *Ctx) {
+	R := c.R
+	_, s := c.Std()
+	_ = s
+	R.Rule("R-limit-budget", "E2+E4", "Read: exhausted budget returns the 552 error before reading; the buffer is cut to the budget; every exit after reading subtracts the delivered count", 6)
+	if f := c.A.Func("(*dataReader).Read"); f != nil {
+		t := buildDotTable(c)
+		var tooLarge []ssa.Instruction
+		allInstrs(f, func(in ssa.Instruction) {
+			if r, ok := in.(*ssa.Return); ok && len(r.Results) == 2 && describe(r.Results[1]) == "ErrDataTooLarge" {
+				tooLarge = append(tooLarge, in)
+			}
+		})
+		R.Ob("(*dataReader).Read/returns ErrDataTooLarge", c.P.Pos(f.Pos()), len(tooLarge) >= 1, "no return of ErrDataTooLarge found: an exhausted budget is not reported")
+		for _, r := range tooLarge {
+			c.obUnreach("ErrDataTooLarge", r, `dataReader.limited == false`)
+			// strictness: a budget that is exhausted but not exceeded is not an error (a message of exactly N octets is accepted)
+			c.obUnreach("ErrDataTooLarge", r, `dataReader.n >= 0`)
+			res := r.(*ssa.Return).Results[0]
+			okCount := false
+			if k, isK := constInt(res); isK && k == 0 {
+				okCount = true
+			} else if bo, isB := res.(*ssa.BinOp); isB && bo.Op == token.SUB {
+				if k, isK := constInt(bo.Y); isK && k == 1 {
+					okCount = true // n-1: the octet beyond the budget is not handed out
+				}
+			}
+			R.Ob(c.siteKey(r, "ErrDataTooLarge hands out at most the budget"), c.P.InstrPos(r), okCount, "over-limit return reports "+describe(res)+" delivered octets")
+		}
+		if t.err == nil {
+			c.obUnreach("ReadByte", t.m.readCall, `dataReader.limited == true`, `dataReader.n < 0`)
+			// buffer cut: the buffer the loop writes to must be a loop-header phi
+			// (cut or uncut), not the raw parameter
+			cutSeen := false
+			allInstrs(f, func(in ssa.Instruction) {
+				if sl, ok := in.(*ssa.Slice); ok && describe(sl.X) == "param1" && sl.High != nil && describe(sl.High) == "(dataReader.n + 1)" {
+					cutSeen = true
+				}
+			})
+			R.Ob("(*dataReader).Read/buffer cut exists", c.P.Pos(f.Pos()), cutSeen, "Read never cuts the caller's buffer to the remaining budget plus the one probe octet: one call can deliver more than the limit, or an end marker exactly at the limit cannot be recognised")
+			for _, in := range t.m.header.Instrs {
+				phi, ok := in.(*ssa.Phi)
+				if !ok {
+					break
+				}
+				if isIntType(phi.Type()) || strings.Contains(phi.Type().String(), "error") {
+					continue
+				}
+				for i, e := range phi.Edges {
+					pred := t.m.header.Preds[i]
+					if t.m.header.Dominates(pred) {
+						continue
+					}
+					if describe(e) == "param1" {
+						// uncut buffer may enter only when not limited or len(b) <= n
+						fb := c.F.feasibleBlocks(f, HSet(`dataReader.limited == true`, `builtin:len(param1) > (dataReader.n + 1)`))
+						feasible := fb[pred] && !c.F.infeasible(pred, t.m.header, HSet(`dataReader.limited == true`, `builtin:len(param1) > (dataReader.n + 1)`))
+						R.Ob(fmt.Sprintf("(*dataReader).Read/uncut buffer edge from block %s", pred.Comment), c.P.InstrPos(phi), !feasible, "the caller's full buffer reaches the copy loop although it is larger than the remaining budget")
+					} else if sl, ok := e.(*ssa.Slice); ok {
+						okHigh := sl.High != nil && describe(sl.High) == "(dataReader.n + 1)" && sliceFromZero(sl) && describe(sl.X) == "param1"
+						R.Ob("(*dataReader).Read/buffer cut to budget", c.P.InstrPos(sl), okHigh, "buffer is cut to "+describe(sl))
+					}
+				}
+			}
+			// budget decrement on every exit after the loop
+			c.obFollow("budget reduced after reading", f, func(in ssa.Instruction) bool { return in == ssa.Instruction(t.m.readCall) }, []string{"st:dataReader.n"}, c.F.SkipUnder(`dataReader.limited == true`), nil)
+			for _, st := range s.Find(f, "st:dataReader.n") {
+				_, _, v := storedField(st)
+				ok := false
+				if bo, isB := v.(*ssa.BinOp); isB && bo.Op == token.SUB && describe(bo.X) == "dataReader.n" {
+					// Y must be the returned count
+					allInstrs(f, func(in ssa.Instruction) {
+						if r, isR := in.(*ssa.Return); isR && len(r.Results) == 2 && stripConv(bo.Y) == stripConv(r.Results[0]) {
+							ok = true
+						}
+					})
+				}
+				R.Ob(c.siteKey(st, "n -= delivered"), c.P.InstrPos(st), ok, "budget updated to "+describe(v))
+			}
+		}
+		// after every budget update the overflow (n < 0) is tested before the function can return
+		for _, st := range s.Find(f, "st:dataReader.n") {
+			st := st
+			v := RunPend(f, PendRule{
+				Trig: func(in ssa.Instruction) bool { return in == st },
+				Disch: func(in ssa.Instruction) bool {
+					iff, ok := in.(*ssa.If)
+					if !ok {
+						return false
+					}
+					d := describe(iff.Cond)
+					return d == "(dataReader.n < 0)" || d == "(dataReader.n >= 0)" || d == "(dataReader.n <= -1)"
+				},
+				AtExit: true,
+			})
+			R.Ob(c.siteKey(st, "overflow tested after the budget update"), c.P.InstrPos(st), len(v) == 0, "Read can return after reducing the budget without testing whether it went below zero: the probe octet beyond the limit is handed to the backend")
+		}
+		nPost := 0
+		for _, r := range tooLarge {
+			if t.err == nil && reachableFrom(t.m.header, nil)[r.Block()] {
+				nPost++
+			}
+		}
+		R.Ob("(*dataReader).Read/overflow after reading is reported", c.P.Pos(f.Pos()), nPost >= 1, "no ErrDataTooLarge return after the copy loop: the octet beyond the limit is delivered")
+		// the overflow is detected right after the budget is reduced
+		for _, r := range tooLarge {
+			if reachableFrom(f.Blocks[0], nil)[r.Block()] && t.err == nil && reachableFrom(t.m.header, nil)[r.Block()] {
+				seen := s.SeenBefore(r)
+				R.Ob(c.siteKey(r, "overflow tested after the budget was reduced"), c.P.InstrPos(r), seen["st:dataReader.n"], "over-limit return after the loop is not preceded by the budget update")
+			}
+		}
+		code, ok1 := compositeIntField(c, "ErrDataTooLarge", "Code")
+		R.Ob("ErrDataTooLarge/code 552", "-", ok1 && code == 552, fmt.Sprintf("ErrDataTooLarge.Code = %d", code))
+	}
+
 }
